@@ -745,3 +745,29 @@ def _skip_marker(tree):
                             i_.test = ast.parse("not kf['is_private']", mode='eval').body
                             return True
     return False
+
+
+@PROP.obligation('C11.requested-encoding-raises', canaries=[
+    mut.drop_stmt('encoding', 'addr_to_pubkeyhash', "if encoding == 'base58'", 'an invalid base58 address decodes to None when base58 is requested', nth=1),
+])
+def requested_encoding_raises(ctx):
+    """encoding.addr_to_pubkeyhash(address, encoding=E) tries the Base58 decoder and falls back to Bech32 only when NO encoding was
+    requested. With encoding='base58' the error of the Base58 decoder (wrong checksum, unknown character, wrong length) is the answer:
+    the handler that swallows it for the fallback re-raises under `encoding == 'base58'`, or the function ends in a raise - it never
+    falls off its end and returns None, which callers take for "no payload" instead of "invalid string"."""
+    q = 'encoding:addr_to_pubkeyhash'
+    fn = ctx.repo.func(q)
+    handlers = [h for t in ast.walk(fn) if isinstance(t, ast.Try) and any(isinstance(c, ast.Call) and norm(c.func) == 'addr_base58_to_pubkeyhash' for s_ in t.body for c in ast.walk(s_)) for h in t.handlers]
+    if not handlers:
+        ctx.saw('the Base58 decoder is called outside a try block: its error propagates')
+        return
+    ends_in_raise = isinstance(fn.body[-1], ast.Raise)
+    n = 0
+    for h in handlers:
+        n += 1
+        reraises = any(isinstance(i_, ast.If) and 'encoding' in norm(i_.test) and 'base58' in norm(i_.test) and any(isinstance(x, ast.Raise) for x in i_.body) for i_ in ast.walk(h)) or \
+            any(isinstance(x, ast.Raise) for x in h.body)
+        ctx.saw('handler `except %s`: re-raises for encoding base58: %s; function ends in a raise: %s' % (norm(h.type) if h.type is not None else '', reraises, ends_in_raise))
+        ctx.require(reraises or ends_in_raise, q, 'the error of the Base58 decoder is swallowed also when encoding=\'base58\' was requested, and the function then returns None', h,
+                    "addr_to_pubkeyhash('1A1zP1eP5QGefi2DMPTfTL5SLmv7DivfNb', encoding='base58') - a wrong checksum - returns None instead of raising")
+    ctx.floor(n, 1, 'handlers')
